@@ -483,6 +483,95 @@ def ell_float_cases(rng, n):
                "missing": missing if use_mask else None, "expect": "ok" if bad_at is None else "ValueError", "why": why}
 
 
+def ell_float_systematic(rng, rotations):
+    """EVERY sign pattern of eigenvalues (magnitudes >= 0.5, so anything with a minus is clearly outside) for
+    d = 1, 2, 3: axis-aligned with the magnitudes in every order, and rotated (Q diag(lam) Q^T, Q from the QR of a
+    seeded Gaussian); plus asymmetric matrices (every off-diagonal position, several amounts).  The matrix under
+    test sits alone, first, in the middle or last in a stack of good matrices; without mask, with junk under the
+    mask elsewhere, and itself under the mask (then the stack is valid)."""
+    mags_of = {1: [[0.5], [3.0]], 2: [[0.5, 2.0], [4.0, 1.5]], 3: [[0.5, 2.0, 3.0], [2.0, 3.0, 4.0]]}
+
+    def good(d, k):
+        b = np.array([[rng.gauss(0, 1) for _ in range(d)] for _ in range(d)])
+        return b.T @ b + np.eye(d)
+
+    def junk(d):
+        m = -np.eye(d) * 3.0
+        if d > 1:
+            m[0, 1] = 7.0
+        return m
+
+    def place(d, m, tag, bad):
+        for pos in ("single", "first", "middle", "last"):
+            for mask_mode in ("nomask", "junk-elsewhere", "self-masked"):
+                if pos == "single":
+                    mats, at = [m], 0
+                else:
+                    mats = [good(d, k) for k in range(3)]
+                    at = {"first": 0, "middle": 1, "last": 2}[pos]
+                    mats[at] = m
+                missing = None
+                expect_bad = bad
+                if mask_mode == "junk-elsewhere":
+                    if pos == "single":
+                        continue
+                    missing = [False] * len(mats)
+                    other = (at + 1) % len(mats)
+                    mats[other] = junk(d)
+                    missing[other] = True
+                elif mask_mode == "self-masked":
+                    missing = [False] * len(mats)
+                    missing[at] = True
+                    expect_bad = False
+                yield {"kind": "ellipsoid_float", "d": d, "mats": [x.tolist() for x in mats], "missing": missing,
+                       "expect": "ValueError" if expect_bad else "ok", "why": tag, "sys": f"{tag}:row={pos}:{mask_mode}"}
+
+    for d in (1, 2, 3):
+        for signs in itertools.product([1, -1], repeat=d):
+            pat = "".join("+" if x > 0 else "-" for x in signs)
+            bad = any(x < 0 for x in signs)
+            for mags in mags_of[d]:
+                # axis aligned: the signed eigenvalues in every order along the diagonal
+                for perm in sorted(set(itertools.permutations([sg * mg for sg, mg in zip(signs, mags)]))):
+                    yield from place(d, np.diag(perm).astype(float), f"signs={pat}:aligned", bad)
+                for _ in range(rotations if d > 1 else 0):
+                    q, _r = np.linalg.qr(np.array([[rng.gauss(0, 1) for _ in range(d)] for _ in range(d)]))
+                    m = q @ np.diag([sg * mg for sg, mg in zip(signs, mags)]) @ q.T
+                    yield from place(d, (m + m.T) / 2, f"signs={pat}:rotated", bad)
+        for i in range(d):
+            for j in range(d):
+                if i != j:
+                    for amount in (0.1, -0.5, 3.0):
+                        m = good(d, 0)
+                        m[i, j] += amount
+                        yield from place(d, m, f"asymmetric[{i},{j}]", True)
+
+
+def ell_float_independent(c):
+    """independent verdict: every unmasked matrix is symmetric (max |A - A^T| < 1e-6) and the smallest eigenvalue
+    of its symmetrised form (np.linalg.eigvalsh) is > 0.  Returns (verdict, clear) where clear says that every
+    unmasked matrix is far from the boundary (asymmetry 0 or >= 0.09, |smallest eigenvalue| >= 0.09)."""
+    d = c["d"]
+    a = np.array(c["mats"], dtype=np.float64).reshape(-1, d, d)
+    ok, clear = True, True
+    for k, m in enumerate(a):
+        if c["missing"] is not None and c["missing"][k]:
+            continue
+        if not np.all(np.isfinite(m)):
+            ok = False
+            continue
+        asym = float(np.max(np.abs(m - m.T))) if d else 0.0
+        if asym >= 1e-6:
+            ok = False
+            clear = clear and asym >= 0.09
+            continue
+        lo = float(np.min(np.linalg.eigvalsh((m + m.T) / 2)))
+        if lo <= 0:
+            ok = False
+        clear = clear and abs(lo) >= 0.09
+    return ("ok" if ok else "ValueError"), clear
+
+
 def impl_ell_float(c):
     from geff.validate.data import ValidationConfig, validate_data
 
@@ -512,7 +601,17 @@ def ell_float_req(c):
 
 def judge_ell_float(ck, c, im, mo=None):
     has_junk = c["missing"] is not None and any(c["missing"])
-    ck.case(c, f"ellipsoid_float:d={c['d']}:{c['why']}" + (":junk-under-mask" if has_junk else ""), nontrivial=bool(c["mats"]))
+    indep, clear = ell_float_independent(c)
+    if indep != c["expect"] or not clear:
+        raise AssertionError(f"ellipsoid_float generator/oracle inconsistent: expect={c['expect']} independent={indep} "
+                             f"clear={clear} on {json.dumps(c)[:400]}")
+    if c.get("sys"):
+        ck.case(c, f"ellipsoid_float:sys:d={c['d']}:{c['sys']}", nontrivial=True)
+        pat = f"d={c['d']}:{c['why']}"
+        hist = ck.extra.setdefault("ellipsoid_sign_pattern_histogram", {})
+        hist[pat] = hist.get(pat, 0) + 1
+    else:
+        ck.case(c, f"ellipsoid_float:d={c['d']}:{c['why']}" + (":junk-under-mask" if has_junk else ""), nontrivial=bool(c["mats"]))
     if im["o"] != c["expect"]:
         if c["expect"] == "ok" and c["d"] == 3 and "dimensions" in im.get("msg", ""):
             key, what = "C12:ellipsoid-rejects-valid-shape", "valid (N,3,3) covariance stack for 3 space axes rejected"
@@ -557,20 +656,50 @@ def dispatch_expected(c):
     return active, (VALIDATOR_OF_FLAG[failing[0]] if failing else None)
 
 
+GRAPH_SHAPES = {
+    # name: (n nodes, edges, which validators CAN hold invalid data on this graph)
+    "path": (4, [[0, 1], [1, 2]], ["graph", "sphere", "ellipsoid", "lineage", "tracklet"]),
+    "one-edge": (2, [[0, 1]], ["graph", "sphere", "ellipsoid", "lineage", "tracklet"]),
+    "edgeless": (4, [], ["sphere", "ellipsoid", "lineage", "tracklet"]),
+    "single-node": (1, [], ["sphere", "ellipsoid"]),
+    "empty": (0, [], ["sphere", "ellipsoid"]),
+}
+
+
+def dispatch_data(shape, bad):
+    """node ids, edges and the four property arrays; `bad` = validators whose data is invalid"""
+    n, edges, _ = GRAPH_SHAPES[shape]
+    edges = [list(e) for e in edges]
+    if "graph" in bad and edges:
+        edges.append(list(edges[0]))            # repeated edge (collapses in networkx: tracks unaffected)
+    if n == 0:   # no entry can be wrong: invalid = wrong rank / wrong matrix extent
+        r = np.zeros((0, 2)) if "sphere" in bad else np.zeros((0,))
+        cov = np.zeros((0, 3, 3)) if "ellipsoid" in bad else np.zeros((0, 2, 2))
+        trk = lin = np.zeros((0,), dtype=np.int64)
+    else:
+        r = np.array([1.0 + k for k in range(n)])
+        if "sphere" in bad:
+            r[n - 1] = -1.0
+        cov = np.stack([np.array([[2.0, 0.0], [0.0, 2.0]])] * n)
+        if "ellipsoid" in bad:
+            cov[0, 1, 0] = 1.0
+        good_trk = {"path": [5, 5, 5, 6], "one-edge": [5, 5], "edgeless": [5, 6, 7, 8], "single-node": [5]}[shape]
+        bad_trk = {"path": [5, 5, 6, 6], "one-edge": [5, 6], "edgeless": [5, 5, 7, 8], "single-node": [5]}[shape]
+        good_lin = {"path": [1, 1, 1, 2], "one-edge": [1, 1], "edgeless": [1, 2, 3, 4], "single-node": [1]}[shape]
+        bad_lin = {"path": [1, 1, 2, 2], "one-edge": [1, 2], "edgeless": [1, 1, 3, 4], "single-node": [1]}[shape]
+        trk = np.array(bad_trk if "tracklet" in bad else good_trk)
+        lin = np.array(bad_lin if "lineage" in bad else good_lin)
+    return np.arange(n), np.asarray(edges, dtype=np.int64).reshape(-1, 2), {"r": r, "cov": cov, "trk": trk, "lin": lin}
+
+
 def impl_dispatch(c):
     import geff.validate.data as D
 
     cfg = dict(zip(FLAGS, c["config"]))
     dec = c["decl"]
     active, _ = dispatch_expected(c)
-    bad = set(c["bad"])
-    edges = [[0, 1], [1, 2]] + ([[0, 1]] if "graph" in bad else [])
-    props = {
-        "r": {"values": np.array([1.0, 2.0, -1.0 if "sphere" in bad else 0.0, 3.0]), "missing": None},
-        "cov": {"values": np.stack([np.array([[2.0, 0.0], [1.0 if "ellipsoid" in bad else 0.0, 2.0]])] * 4), "missing": None},
-        "trk": {"values": np.array([5, 5, 6, 6] if "tracklet" in bad else [5, 5, 5, 6]), "missing": None},
-        "lin": {"values": np.array([1, 1, 2, 2] if "lineage" in bad else [1, 1, 1, 2]), "missing": None},
-    }
+    ids, edges, arrs = dispatch_data(c.get("shape", "path"), set(c["bad"]))
+    props = {k: {"values": v, "missing": None} for k, v in arrs.items()}
     if c["omit"]:   # data of validators that must not be evaluated is absent altogether
         keep = {"sphere": "r", "ellipsoid": "cov", "tracklet": "trk", "lineage": "lin"}
         props = {keep[f]: props[keep[f]] for f in active if f in keep}
@@ -578,8 +707,13 @@ def impl_dispatch(c):
     md = _meta(axes=["time", "space", "space"], sphere="r" if dec["sphere"] else None,
                ellipsoid="cov" if dec["ellipsoid"] else None, track=track,
                props=[("r", "float64"), ("cov", "float64"), ("trk", "int64"), ("lin", "int64")])
-    g = {"metadata": md, "node_ids": np.arange(4), "edge_ids": np.asarray(edges, dtype=np.int64),
-         "node_props": props, "edge_props": {}}
+
+    def geff():
+        return {"metadata": md, "node_ids": ids.copy(), "edge_ids": edges.copy(),
+                "node_props": {k: {"values": v["values"].copy(), "missing": None} for k, v in props.items()}, "edge_props": {}}
+    # 1st run: the untouched module (real validators, nothing patched)
+    plain = _outcome(lambda: D.validate_data(geff(), D.ValidationConfig(**cfg)))
+    # 2nd run: the same call with recording wrappers around the real validators
     calls = []
     saved = {n: getattr(D, n) for n in CALLS}
 
@@ -591,28 +725,31 @@ def impl_dispatch(c):
     try:
         for n in CALLS:
             setattr(D, n, wrap(n))
-        out = _outcome(lambda: D.validate_data(g, D.ValidationConfig(**cfg)))
+        out = _outcome(lambda: D.validate_data(geff(), D.ValidationConfig(**cfg)))
     finally:
         for n in CALLS:
             setattr(D, n, saved[n])
     if out["o"] == "ValueError":
         out["call"] = next((cn for p, cn in MSG2CALL if out["msg"].startswith(p)), None)
     out["calls"] = calls
+    out["plain"] = plain
     return out
 
 
 def dispatch_cases(full):
-    bad_sets = [[]] + [[f] for f in FLAGS] + [list(FLAGS)]
-    if full:
-        bad_sets = [[f for i, f in enumerate(FLAGS) if k >> i & 1] for k in range(32)]
-    for cfg in itertools.product([False, True], repeat=5):
-        for ds in (False, True):
-            for de in (False, True):
-                for tr in TRACK_OPTS:
-                    for bad in bad_sets:
-                        for omit in (False, True):
-                            yield {"kind": "dispatch", "config": list(cfg), "decl": {"sphere": ds, "ellipsoid": de, "track": tr},
-                                   "bad": bad, "omit": omit}
+    for shape, (_n, _e, can_be_bad) in GRAPH_SHAPES.items():
+        if full:
+            bad_sets = [[f for i, f in enumerate(can_be_bad) if k >> i & 1] for k in range(2 ** len(can_be_bad))]
+        else:
+            bad_sets = [[]] + [[f] for f in can_be_bad] + [list(can_be_bad)]
+        for cfg in itertools.product([False, True], repeat=5):
+            for ds in (False, True):
+                for de in (False, True):
+                    for tr in TRACK_OPTS:
+                        for bad in bad_sets:
+                            for omit in ((False, True) if full or shape in ("path", "edgeless") else (False,)):
+                                yield {"kind": "dispatch", "shape": shape, "config": list(cfg),
+                                       "decl": {"sphere": ds, "ellipsoid": de, "track": tr}, "bad": bad, "omit": omit}
 
 
 def dispatch_req(c):
@@ -629,7 +766,10 @@ def judge_dispatch(ck, c, im, mo):
     allowed = set()
     for f in active:
         allowed |= set(CALLS[:4]) if f == "graph" else {VALIDATOR_OF_FLAG[f]}
-    ck.case(c, f"dispatch:active={len(active)}:{'raises' if want_fail else 'ok'}", nontrivial=any(c["config"]))
+    ck.case(c, f"dispatch:{c.get('shape', 'path')}:active={len(active)}:{'raises' if want_fail else 'ok'}", nontrivial=any(c["config"]))
+    if im["plain"]["o"] != im["o"] or im["plain"].get("msg") != im.get("msg"):
+        ck.fail("C12:dispatch-differs-under-recording", f"validate_data gave {im['plain']} unpatched but {im['o']} with recording wrappers",
+                c, im, None)
     stray = [n for n in im["calls"] if n not in allowed]
     if stray:
         ck.fail("C12:disabled-validator-evaluated", f"validators {stray} evaluated although not enabled / not declared", c, im, sorted(allowed))
@@ -835,6 +975,7 @@ def run(ck: common.Check):
     cases.extend(sphere_cases(ck.rng, 1500 if ck.quick else 20000))
     cases.extend(ell_shape_cases(full=not ck.quick))
     cases.extend(ell_float_cases(ck.rng, 1200 if ck.quick else 15000))
+    cases.extend(ell_float_systematic(ck.rng, rotations=4 if ck.quick else 24))
     cases.extend(dispatch_cases(full=not ck.quick))
     cases.extend(lineage_cases(ck.rng, 3, 1500 if ck.quick else 20000))
     ck.extra["corpus_cases"] = n_corpus
@@ -902,6 +1043,7 @@ def replay(rp):
     class R:  # minimal stand-in for Check
         def __init__(self):
             self.f = []
+            self.extra = {}
 
         def case(self, *a, **k):
             pass
